@@ -619,6 +619,15 @@ class World:
                 return PList(sym=a[0].sym, kind=a[0].kind)
             return PList(list(it.iterate(a[0], n)))
 
+        @reg("format")
+        def _format(it, a, k, n):
+            # format(value, spec): some text (the callers under contract only pass numbers and fixed specs)
+            if len(a) > 1 and not is_strlike(a[1]):
+                it.guard(False, "TypeError", n, "format() argument 2 must be str")
+            r = it.fresh_str("formatted")
+            it.path.assume(z3.Length(r.z) >= 1, check=False)
+            return r
+
         @reg("iter")
         def _iter(it, a, k, n):
             # an iterator over a concrete spine: a one-shot cursor (a list iterator sees later appends, as in CPython)
@@ -760,7 +769,11 @@ class World:
             v = a[0]
             if isinstance(v, Obj):
                 return v.cls
-            return self.builtin_classes.get(_tn(v), self.object_cls)
+            # host kinds: the very object the names `str`, `int`, ... denote, so that `type(x) == str` / `is int` hold
+            nm = "bool" if isinstance(v, (bool, SBool)) else _tn(v)
+            if nm in ("str", "int", "float", "bool", "list", "dict", "set", "tuple") and nm in self.builtins:
+                return self.builtins[nm]
+            return self.builtin_classes.get(nm, self.object_cls)
 
         @reg("open")
         def _open(it, a, k, n):
@@ -1275,6 +1288,8 @@ class World:
                     it.path.assume(z3.Length(p_.z) <= 2, check=False)
                 return PList(parts)
             return Builtin("re.split", f)
+        if mod.name == "decimal" and name == "Decimal":
+            return Builtin("decimal.Decimal", lambda it, a, k, n: SElem(z3.Int(it.fresh("decimalobj")), "decimal"))
         if mod.name == "itertools" and name == "count":
             return Builtin("itertools.count", lambda it, a, k, n: CounterVal())
         if mod.name == "sys" and name in ("stdout", "stdin", "stderr"):
